@@ -253,12 +253,12 @@ def _matches(obs, ret, pool=None):
     if kind == "err":
         return False, f"expected a result, raised {type(got).__name__}: {got}"
     if t == "keys":
-        ks = sorted((val.key_to_py(k) for k in ret["v"]), key=repr)
+        ks = sorted((val.key_to_py(k) for k in ret["ks"]), key=repr)
         ok = isinstance(got, tuple) and got[0] == "keys" and sorted(got[1], key=repr) == ks \
             and len(got[1]) == len(ks)
         return ok, f"expected keys {ks}, got {got!r}"
     if t in ("bag", "items"):
-        want = val.to_py({"t": "d", "v": ret["v"]}, pool)
+        want = val.to_py({"t": "d", "m": ret["m"]}, pool)
         if not (isinstance(got, tuple) and got[0] == t):
             return False, f"expected {t}, got {got!r}"
         g = to_plain(got[1])
